@@ -107,6 +107,8 @@ class Gen:
             choices += ["sstore", "sstore", "tstore", "sload_mstore"]
         if "branch" in self.f and depth > 0:
             choices += ["if", "if", "guard"]
+        if "corr" in self.f and depth > 0:
+            choices = ["corr", "corr", "corr", "corr", "mstore", "sstore"]
         if "mem" in self.f:
             choices += ["mstore8", "copy", "mcopy"]
         if "log" in self.f:
@@ -124,6 +126,8 @@ class Gen:
         if "callfail" in self.f and self.pool:
             choices += ["call_bump", "call_bump", "call"]
         k = r.choice(choices)
+        if k == "corr":
+            return self.correlated()
         if k == "symcall":
             return self.symcall()
         if k == "extcode":
@@ -200,10 +204,25 @@ class Gen:
         r = self.r
         l_top, l_end = self.lab(), self.lab()
         bound = [("push", r.choice([0, 1, 2, 3, 5]))] if r.random() < 0.5 else self.arg()
-        body = self.stmt(0) if r.random() < 0.7 else []
+        c = r.random()
+        if "symloop" in self.f:
+            # trip count = an input (possibly masked to a small range), always observable afterwards
+            bound = self.arg() + ([("push", r.choice([3, 7, 15])), "AND"] if r.random() < 0.5 else [])
+            c = 0.6 + 0.4 * r.random()
+        if c < 0.45:
+            body = self.stmt(0)
+        elif c < 0.6:
+            body = []
+        elif c < 0.8:
+            body = ["DUP1", ("push", r.choice([0, 32, 64])), "MSTORE"]                       # publish the counter
+        else:
+            body = [("push", 1), r.choice(["SLOAD", "TLOAD"])]                                 # accumulate in a slot
+            body = [("push", 1), "SLOAD", ("push", 3), "ADD", ("push", 1), "SSTORE"] if body[-1] == "SLOAD" else [("push", 1), "TLOAD", "DUP2", "ADD", ("push", 1), "TSTORE"]
+        # the trip count stays observable: the final counter is published (not just popped) most of the time
+        tail = [("push", r.choice([0, 32, 96])), "MSTORE"] if (r.random() < 0.6 or "symloop" in self.f) else ["POP"]
         # stack: [i]
         return (["PUSH0", ("label", l_top), "DUP1"] + bound + ["SWAP1", "LT", "ISZERO", ("ref", l_end), "JUMPI"]
-                + body + [("push", 1), "ADD", ("ref", l_top), "JUMP", ("label", l_end), "POP"])
+                + body + [("push", 1), "ADD", ("ref", l_top), "JUMP", ("label", l_end)] + tail)
 
     def call(self, depth):
         r = self.r
@@ -220,6 +239,33 @@ class Gen:
         items += [("push", 128), "MSTORE"]
         if r.random() < 0.4:
             items += [("push", r.choice([0, 32])), "PUSH0", ("push", 160), "RETURNDATACOPY"] if False else ["RETURNDATASIZE", ("push", 160), "MSTORE"]
+        return items
+
+    def correlated(self):
+        """two successive branches on the SAME operand with related bounds: what one side of the first
+        refutes is feasible on the other side (if (a < k2) {..}; if (a < k1) {..} with k1 < k2, and variants)"""
+        r = self.r
+        a = self.arg()
+        k1 = r.choice([1, 5, 7, 100, 1 << 128])
+        k2 = k1 + r.choice([1, 5, 1000])
+        op = r.choice(["LT", "LT", "GT", "SLT", "EQ"])
+        first, second = (k2, k1) if r.random() < 0.7 else (k1, k2)
+
+        def test(k):
+            # operand order: a OP k  (k pushed first)
+            return [("push", k)] + a + [op]
+
+        l1, l2, l3 = self.lab(), self.lab(), self.lab()
+        mark = lambda v, off: [("push", v), ("push", off), "MSTORE"]  # noqa: E731
+        items = test(first) + ["ISZERO", ("ref", l1), "JUMPI"] + (self.stmt(0) if r.random() < 0.5 else mark(0xA1, 0)) + [("label", l1)]
+        if r.random() < 0.5:
+            items += self.stmt(0)
+        end = r.choice(["revert", "mark", "mark", "invalid"])
+        items += test(second) + ["ISZERO", ("ref", l2), "JUMPI"]
+        items += {"revert": [("push", 0), "PUSH0", "REVERT"], "invalid": ["INVALID"], "mark": mark(0xB2, 32)}[end]
+        items += [("label", l2)]
+        if r.random() < 0.4:   # and once more, the very same test as the second one
+            items += test(second) + ["ISZERO", ("ref", l3), "JUMPI"] + mark(0xC3, 64) + [("label", l3)]
         return items
 
     def sym_address(self):
